@@ -214,8 +214,8 @@ def run(ctx: lib.Ctx) -> None:
                 'added/removed by UPDATE in random order, and one set literal (spec-sorted, or permuted/duplicated). '
                 'non-trivial = the two values differ and share their outermost constructor / the set history touches >= 3 values.')
     depth = ctx.n(3, 4)
-    n_pairs = ctx.n(700, 40000)
-    n_sets = ctx.n(160, 6000)
+    n_pairs = ctx.n(1000, 40000)
+    n_sets = ctx.n(200, 6000)
 
     # ---------------- COMPARE
     triples = []
@@ -253,8 +253,8 @@ def run(ctx: lib.Ctx) -> None:
         cases.append((f'({V.tables_coq([a, b])}, {V.type_coq(t)}, {V.value_coq(a)}, {V.value_coq(b)})',
                       f'({cbool(wt)}, {cZ(g)}, {cZ(want if wt else 0)})'))
         meta.append((t, a, b, got, want, code))
-    bad = ctx.coq_mismatches('compare', IMPORTS, 'compare_case', 'compare_case_eqb',
-                             'text_tables * cty * val * val', 'bool * Z * Z', cases)
+    bad = V.par_mismatches(ctx, 'compare', IMPORTS, 'compare_case', 'compare_case_eqb',
+                           'text_tables * cty * val * val', 'bool * Z * Z', cases, shard=500)
 
     reported = 0
     # (B) on every case
@@ -344,8 +344,8 @@ def run(ctx: lib.Ctx) -> None:
         scases.append((f'({V.tables_coq(pool)}, {clist(f"({V.value_coq(v)}, {cbool(b)})" for v, b in ups)}, {clist(V.value_coq(v) for v in lit)})',
                        f'({clist(V.value_coq(v) for v in its)}, {cbool(acc is True)})'))
         smeta.append((t, ups, lit, items, acc, want_items, want_acc, code))
-    sbad = ctx.coq_mismatches('setorder', IMPORTS, 'set_order_case', 'set_order_eqb',
-                              'text_tables * list (val * bool) * list val', 'list val * bool', scases)
+    sbad = V.par_mismatches(ctx, 'setorder', IMPORTS, 'set_order_case', 'set_order_eqb',
+                            'text_tables * list (val * bool) * list val', 'list val * bool', scases, shard=100)
     for i, (t, ups, lit, items, acc, want_items, want_acc, code) in enumerate(smeta):
         ok_items = isinstance(items, list) and [V.canon(x) for x in items] == [V.canon(x) for x in want_items]
         ok_lit = (acc is True) == want_acc and acc in (True, False)
